@@ -101,4 +101,18 @@ def gfc (t : Coef) : Spec :=
     init := [],
     metrics := [gfcMetric t] }
 
+/-- `potential_functions.gradient_descent_lyapunov_2`: same leaves as `gdl1` (`x⋆ ↦ 0`, `x_n ↦ 1`, `g_n ↦ 2`, `g_{n+1} ↦ 3`; values
+`f⋆ ↦ 0`, `f_n ↦ 1`, `f_{n+1} ↦ 2`); potential `V_k = (2k+1) L (f_k − f⋆) + k(k+2) ‖g_k‖² + L² ‖x_k − x⋆‖²` -/
+def gdl2V (L c1 c2 : Coef) (fk : Nat) (g x : PDict) : EDict :=
+  EDict.add (EDict.add (EDict.smul c1 (EDict.sub [(EKey.f fk, 1)] [(EKey.f 0, 1)])) (EDict.smul c2 (PDict.sq g)))
+    (EDict.smul (L * L) (PDict.sq (PDict.sub x [(0, 1)])))
+def gdl2Metric (L γ : Coef) (n : Nat) : EDict :=
+  EDict.sub (gdl2V L ((2 * (n : Coef) + 3) * L) (((n : Coef) + 1) * ((n : Coef) + 3)) 2 [(3, 1)] (gdlNext γ))
+    (gdl2V L ((2 * (n : Coef) + 1) * L) ((n : Coef) * ((n : Coef) + 2)) 1 [(2, 1)] [(1, 1)])
+
+def gdl2 (L γ : Coef) (n : Nat) : Spec :=
+  { samples := [([(0, 1)], [], [(EKey.f 0, 1)]), ([(1, 1)], [(2, 1)], [(EKey.f 1, 1)]), (gdlNext γ, [(3, 1)], [(EKey.f 2, 1)])],
+    init := [],
+    metrics := [gdl2Metric L γ n] }
+
 end Pepit.Method
